@@ -47,6 +47,8 @@ type wData struct {
 	Nodef   bool     `json:"nodef"`
 	V4      [][]int  `json:"v4"`
 	V6      [][]int  `json:"v6"`
+	Pre     []wParam `json:"pre"`
+	Post    []wParam `json:"post"`
 	Ech     []int    `json:"ech"`
 	Raw     []int    `json:"raw"`
 	Mname   [][]int  `json:"mname"`
@@ -161,7 +163,7 @@ func buildMsg(m *wMsg) (*dns.Message, bool) {
 		var o []dns.RR
 		for i := range rs {
 			r := &rs[i]
-			if !encodable[r.Type] {
+			if !encodable[r.Type] || len(r.Data.Pre) > 0 || len(r.Data.Post) > 0 { // (parameters the package has no field for: decode only)
 				ok = false
 			}
 			o = append(o, dns.RR{Name: nameStr(r.Name), Type: uint16(r.Type), Class: uint16(r.Class), TTL: u32of(r.TTL), Data: realData(r)})
